@@ -48,4 +48,33 @@ CLAIMS['C06'] = {
             'seeded multi-fault bursts (<16); each stream is demuxed with and without the faults by the real Demuxer and Mon_C06 judges the two '
             'delivered sequences (identity on PES PIDs under duplicates; every faulted delivery equals a clean unit; only hit units missing).',
     'note': TRUST, 'technique': 'TLA+ model checking (TLC) + exhaustive fault-position enumeration judged by trace validation (Mon_C06)', 'ref': 'DESIGN.md 4 C06'}
+CLAIMS['C03'] = {
+    'text': 'Reader.tla models packet-buffer creation, auto-detection (peek / rewind / resync) and per-packet reads against short-read schedules; TLC '
+            'proves EndsInBoundedCalls and EOFAbsorbing for the ideal and exhibits the never-ending behaviour of the historical size-0 buffer. Real '
+            'runs: model-guided mutations of well-formed streams (every declared length field x {0,1,true-1,true+1,max}, truncations, corruption, '
+            'garbage, empty) x packet size {auto,188,192,204,189} x four reader kinds x {NextPacket, NextData}; Mon_C03 requires no panic, monotone '
+            'consumption, ErrNoMorePackets within |input|+2 calls and absorbing. TLA+ does not predict panics: absence is asserted on the inputs run.',
+    'note': TRUST, 'technique': 'TLA+ model checking (TLC) + model-guided input mutation judged by trace validation (Mon_C03)', 'ref': 'DESIGN.md 4 C03'}
+CLAIMS['C07'] = {
+    'text': 'Merge.tla enumerates every order-preserving merge of the per-PID packet sequences (TLC, by packet-count vector); for each stream the real '
+            'Demuxer is run on the base order (three times), on the TLC-enumerated merges (all, or a seeded sample above a budget), with a '
+            'null/adaptation-only/transport-error packet inserted at every position, and with one corruption per PID; Mon_C07 requires every PID\'s '
+            'delivered sequence (digest of the whole DemuxerData) to equal the base run\'s, except on the corrupted PID.',
+    'note': TRUST, 'technique': 'TLA+ enumeration of schedules (TLC) + trace validation of real-code runs (Mon_C07)', 'ref': 'DESIGN.md 4 C07'}
+CLAIMS['C08'] = {
+    'text': 'Reader.tla (short-read schedules x reader kinds x auto/explicit) model-checked for SameAsFull; counterexample for single-Read peek. Real '
+            'runs: each stream through ~190 (quick) / ~3000 (thorough) configurations of reader kind x schedule x explicit/auto x frame size 188..250, '
+            'via NextPacket and NextData; Mon_C08 requires equality with the reference run within the classes the statement defines.',
+    'note': TRUST, 'technique': 'TLA+ model checking (TLC) + configuration enumeration judged by trace validation (Mon_C08)', 'ref': 'DESIGN.md 4 C08'}
+CLAIMS['C19'] = {
+    'text': 'For streams generated from Demux.tla and the seeded reference multiplexer, and nine predicate families, the real Demuxer is run with the '
+            'skipper, on the filtered stream, with an observing and with a replacing PacketsParser; Mon_C19 requires: callback sequence = stream '
+            'packets (once, in order, header/AF parsed), packets and data equal to the filtered stream\'s, observer leaves output unchanged and is '
+            'handed each unit once per PID (non-empty, single PID, arrival order), replacing parser\'s data delivered exactly.',
+    'note': TRUST, 'technique': 'TLA+-generated scenarios + trace validation of real-code runs (Mon_C19)', 'ref': 'DESIGN.md 4 C19'}
+CLAIMS['C20'] = {
+    'text': 'For streams generated from Demux.tla and the seeded reference multiplexer x {explicit, auto}: every number k of NextData calls before '
+            'Rewind, NextPacket counts, mixed and repeated rewinds on the real Demuxer; Mon_C20 requires Rewind = (0, nil) and the post-rewind '
+            'deliveries to equal a fresh Demuxer\'s.',
+    'note': TRUST, 'technique': 'TLA+-generated scenarios + exhaustive call-count enumeration judged by trace validation (Mon_C20)', 'ref': 'DESIGN.md 4 C20'}
 NOT_CLAIMED = {}
